@@ -160,6 +160,13 @@ func TestVerifPool(t *testing.T) {
 	if err != nil {
 		t.Fatal(err)
 	}
+	vf, err := os.Create(filepath.Join(out, "views.ndjson"))
+	if err != nil {
+		t.Fatal(err)
+	}
+	vw := bufio.NewWriterSize(vf, 1<<20)
+	defer func() { vw.Flush(); vf.Close() }()
+	vpViewEnc = json.NewEncoder(vw)
 	pw, ew := bufio.NewWriter(pf), bufio.NewWriter(ef)
 	saved := params.UserVerifyTxn
 	defer func() { params.UserVerifyTxn = saved }()
@@ -171,6 +178,8 @@ func TestVerifPool(t *testing.T) {
 	pf.Close()
 	ef.Close()
 }
+
+var vpViewEnc *json.Encoder
 
 func vpHistory(t *testing.T, penc, eenc *json.Encoder, hist int, rng *rand.Rand, nrounds int) {
 	dir, err := ioutil.TempDir("", "verifpool")
@@ -222,7 +231,7 @@ func vpHistory(t *testing.T, penc, eenc *json.Encoder, hist int, rng *rand.Rand,
 	fcfg := cfg
 	fcfg.GenesisSignature = gb.Sig
 	F := vlOpen(t, filepath.Join(dir, "f.db"), fcfg)
-	defer F.db.Close()
+	defer func() { F.db.Close() }()
 	name := map[*vlNode]string{P: "P", F: "F"}
 
 	step := 0
@@ -242,6 +251,19 @@ func vpHistory(t *testing.T, penc, eenc *json.Encoder, hist int, rng *rand.Rand,
 			r.P.Burn = []int{}
 		}
 		if err := penc.Encode(r); err != nil {
+			t.Fatal(err)
+		}
+	}
+	viewAddrs := []cipher.Address{}
+	for _, o := range owners {
+		viewAddrs = append(viewAddrs, o.addr)
+	}
+	viewAddrs = append(viewAddrs, cipher.AddressFromPubKey(pub)) // an address that never receives anything
+	emitView := func(N *vlNode, nm, phase string) {
+		r := vwViews(t, N, nm, phase, viewAddrs, int(rng.Int31n(1000)))
+		r.Hist, r.Step = hist, step
+		step++
+		if err := vpViewEnc.Encode(r); err != nil {
 			t.Fatal(err)
 		}
 	}
@@ -282,6 +304,21 @@ func vpHistory(t *testing.T, penc, eenc *json.Encoder, hist int, rng *rand.Rand,
 	}
 	_ = otherSec
 
+	// ---- while the head is still the genesis block: a pending transaction spending the genesis output, and the views with it
+	if hist%2 == 1 {
+		uxs, _ := F.v.GetAllUnspentOutputs()
+		var txn coin.Transaction
+		_ = txn.PushInput(uxs[0].Hash())
+		txn.Out = append(txn.Out, coin.TransactionOutput{Address: owners[1].addr, Coins: uxs[0].Body.Coins - 5e6, Hours: 10},
+			coin.TransactionOutput{Address: owners[0].addr, Coins: 5e6, Hours: 1})
+		txn.SignInputs([]cipher.SecKey{owners[0].sec})
+		_ = txn.UpdateHeader()
+		if _, _, err := F.v.InjectForeignTransaction(txn); err != nil {
+			t.Fatalf("inject at genesis: %v", err)
+		}
+		emitView(F, "F", "genesis-pending")
+	}
+
 	// ---- block 1 (made by hand): split the genesis output over the owners, including the locked address
 	now := vlGenesisTime + 3600*uint64(50+rng.Intn(100))
 	{
@@ -321,6 +358,7 @@ func vpHistory(t *testing.T, penc, eenc *json.Encoder, hist int, rng *rand.Rand,
 		}
 	}
 
+	emitView(F, "F", "after-block-1")
 	var spent []coin.UxOut
 	// ---- transaction generator
 	mk := func(N *vlNode, kind string, ins []coin.UxOut, burn uint32) (coin.Transaction, bool) {
@@ -578,6 +616,9 @@ func vpHistory(t *testing.T, penc, eenc *json.Encoder, hist int, rng *rand.Rand,
 			}
 		}
 		if rng.Intn(2) == 0 {
+			emitView(P, "P", "pending")
+		}
+		if rng.Intn(2) == 0 {
 			refresh(P)
 		}
 		if rng.Intn(3) == 0 {
@@ -657,6 +698,11 @@ func vpHistory(t *testing.T, penc, eenc *json.Encoder, hist int, rng *rand.Rand,
 			}
 			spent = append(spent, uxIn...)
 		}
+		if rng.Intn(2) == 0 {
+			emitView(F, "F", "after-block") // the pool may still hold what the block made impossible
+		} else {
+			emitView(P, "P", "after-block")
+		}
 		// the pool must track the chain: what the block made impossible is now hard-invalid
 		if rng.Intn(2) == 0 {
 			refresh(P)
@@ -670,5 +716,63 @@ func vpHistory(t *testing.T, penc, eenc *json.Encoder, hist int, rng *rand.Rand,
 		if rng.Intn(2) == 0 {
 			removeInvalid(F)
 		}
+		emitView(P, "P", "round")
+		if rng.Intn(3) == 0 {
+			emitView(F, "F", "round")
+		}
 	}
+	// ---- rebuild: the derived data is dropped in the database file, the node restarted; every view must be the same
+	if hist%2 == 0 {
+		vpRebuild(t, F, filepath.Join(dir, "f.db"), fcfg, "index", func(N *vlNode) { emitView(N, "F", "rebuilt-index") })
+	} else {
+		vpRebuild(t, F, filepath.Join(dir, "f.db"), fcfg, "history", func(N *vlNode) { emitView(N, "F", "rebuilt-history") })
+	}
+}
+
+// vpRebuild spoils derived data directly in the bolt file (the per-address unspent index and its height marker, or the
+// history's parsed-height marker), reopens the node the way a restart does (visor.New rebuilds what is missing) and
+// hands the fresh node to f.  A restart that fails is reported as a view record with the error.
+func vpRebuild(t *testing.T, N *vlNode, path string, cfg Config, what string, f func(*vlNode)) {
+	err := N.db.Update("verif spoil", func(tx *dbutil.Tx) error {
+		if what == "index" {
+			if err := dbutil.Reset(tx, []byte("unspent_pool_addr_index")); err != nil {
+				return err
+			}
+			return dbutil.Delete(tx, []byte("unspent_meta"), []byte("addr_index_height"))
+		}
+		return dbutil.Delete(tx, []byte("history_meta"), []byte("parsed_height"))
+	})
+	if err != nil {
+		t.Fatal(err)
+	}
+	N.db.Close()
+	db, err := OpenDB(path, false)
+	if err != nil {
+		t.Fatal(err)
+	}
+	N.db = db
+	var v *Visor
+	func() {
+		defer func() {
+			if r := recover(); r != nil {
+				err = fmt.Errorf("PANIC %v", r)
+			}
+		}()
+		v, err = New(cfg, db, nil)
+		if err == nil {
+			err = v.Init()
+		}
+	}()
+	if err != nil {
+		r := vwRec{Ev: "views", Node: "F", Phase: "rebuilt-" + what, Errs: []string{"restart:error"}, ErrText: []string{"restart: " + err.Error()}}
+		r.St.Unspent, r.St.Pool = []vlUx{}, []string{}
+		r.Pool, r.Chain, r.Addrs, r.UnspentsOf, r.UxOuts = []vwTxn{}, []vwBlock{}, []string{}, []vwUnspentsOf{}, []vwUxOut{}
+		r.TxAddr, r.TxAddrConf, r.TxAddrUnc, r.TxAll, r.Balances, r.BlocksLast, r.BlocksRange, r.Paged = []string{}, []string{}, []string{}, []string{}, []vwBalance{}, []string{}, []string{}, []vwPaged{}
+		if e2 := vpViewEnc.Encode(r); e2 != nil {
+			t.Fatal(e2)
+		}
+		return
+	}
+	N.v = v
+	f(N)
 }
